@@ -50,6 +50,8 @@ def wfcond(draw):
         s["direct"] = True  # decisions built with the dataclass constructor instead of the factory
     if trans in ("append", "count", "dict") and draw(st.integers(0, 4)) == 0:
         s["until"] = draw(st.integers(1, 5))  # purely state-based stop rule
+    if draw(st.integers(0, 9)) == 0:
+        s["strat_fail_at"] = draw(st.integers(1, n_cont + 1))  # the wait strategy raises at that poll
     if draw(st.integers(0, 7)) == 0:
         s["fail_at"] = draw(st.integers(1, n_cont + 1))
     if draw(st.integers(0, 6)) == 0:
@@ -66,9 +68,12 @@ def cases(draw):
     body = []
     for _ in range(draw(st.integers(1, 2))):
         w = draw(wfcond())
-        k = draw(st.sampled_from(["top", "top", "child", "par", "map", "after-step"]))
+        k = draw(st.sampled_from(["top", "top", "child", "par", "map", "after-step", "try"]))
         if k == "top":
             body.append(w)
+        elif k == "try":
+            # the workflow catches whatever the condition raises and carries on (then suspends, so that the call is replayed)
+            body += [{"op": "try", "body": w, "catch": ["Exception"], "handler": []}, draw(G.waits(2))]
         elif k == "child":
             body.append({"op": "child", "body": [w]})
         elif k == "par":
